@@ -74,5 +74,18 @@ def run(tier, v, wd, replay=None):
     walks = "300" if tier == "quick" else "3000"
     run_vectors(v, wd, repo, "./control/", "TestVerifTaskPoolRandomWalk", infile, env={"VERIF_TP_WALKS": walks},
                 tags="verif,dae_stub_ebpf", timeout=3000, outname="tp_walk.json")
+    # second half of the property: the endpoint pool (stable endpoint per source, single dial, failure cache, retirement,
+    # exactly-once close, kernel flow entries with adoption) - UdpEndpointPool.tla replayed on the real pool in virtual time
+    r = vlib.tlc(wd, "UdpEndpointPool", "UdpEndpointPool_mc.cfg", timeout=1500)
+    v.add_tlc(r)
+    if r.violated:
+        raise vlib.Infra("UdpEndpointPool.tla violates %s in the model" % r.violated)
+    efile = os.path.join(wd.path, "c13ep.ndjson")
+    en = 1500 if tier == "quick" else 40000
+    r = vlib.tlc(wd, "UdpEndpointPool", "UdpEndpointPool_gen.cfg", emit_to=efile, simulate={"num": en}, depth=16, workers=4, timeout=1500, max_emit=en)
+    v.add_tlc(r)
+    if r.violated:
+        raise vlib.Infra("UdpEndpointPool.tla violates %s in the model (gen)" % r.violated)
+    run_vectors(v, wd, repo, "./control/", "TestVerifC13Endpoints", efile, tags="verif,dae_stub_ebpf", timeout=900, outname="out-ep.json")
     v.assumptions += ["schedules are forced at the verif yield points of udp_task_pool.go; steps between two yield points are atomic in the model",
                       "replay runs with GOMAXPROCS(1) so that sync.Pool behaves as the modelled private slot + shared chain"]
